@@ -348,7 +348,7 @@ def predicted_refs(world, cfg, omit):
 
 # words for random sets: several classes at once
 def random_set(rng, idx):
-    pool = [w for k in ("plain", "c_kw", "cpp_kw", "py_kw", "py_builtin", "pattern") for w in WORDS[k]]
+    pool = [w for k in ("plain", "c_kw", "cpp_kw", "py_kw", "py_builtin") for w in WORDS[k]]
     nroots = rng.randint(1, 3)
     used = set()
 
@@ -667,6 +667,41 @@ def strop_groups(lang, opts, sset):
     return res
 
 
+def dsdl_identifiers(sset):
+    """every DSDL identifier of the set: namespace components, short names, attribute names"""
+    names = set()
+    for path, text in sset["files"].items():
+        parts = path.split("/")
+        names.update(parts[:-1])
+        names.add(parts[-1].split(".")[0])
+        for ln in text.splitlines():
+            ln = ln.split("#")[0].strip()
+            m = re.match(r"^(?:saturated |truncated )?[A-Za-z_][\w.]*(?:\[[^\]]*\])?\s+([A-Za-z_]\w*)\s*(?:=.*)?$", ln)
+            if m and not ln.startswith("@"):
+                names.add(m.group(1))
+    return names
+
+
+def macro_cause(argv, out, tu, sdir, diag, names):
+    """root-cause attribution of a failed compile: the diagnosed line of generated code contains a DSDL identifier of the input that
+    the preprocessor knows as a macro at the end of this translation unit (a standard-library macro: errno, EAGAIN, INT8_MAX, NULL ...).
+    Returns the identifier or ''.  Only labels the verdict (one signature for the whole family); it never decides one."""
+    m = re.match(r"^(\S+?):(\d+):\d+:", diag)
+    if not m:
+        return ""
+    try:
+        line = (sdir / m.group(1)).read_text(errors="replace").splitlines()[int(m.group(2)) - 1]
+    except (OSError, IndexError, ValueError):
+        return ""
+    toks = set(re.findall(r"[A-Za-z_]\w*", line)) & names
+    if not toks:
+        return ""
+    p = subprocess.run(argv[:4] + ["-E", "-dM", "-I", str(out), str(tu)], stdout=subprocess.PIPE, stderr=subprocess.DEVNULL, text=True, errors="replace")
+    macros = set(re.findall(r"^#define ([A-Za-z_]\w*)", p.stdout, re.M))
+    hit = sorted(toks & macros)
+    return hit[0] if hit else ""
+
+
 _DEF = re.compile(r"^[ \t]*#[ \t]*define[ \t]+([A-Za-z_]\w*)[ \t]+(\S.*)$", re.M)
 
 
@@ -753,6 +788,7 @@ def _process_set(job):
             shutil.rmtree(sdir, ignore_errors=True)
             return res
     strip = str(sdir) + "/"
+    ids = None
     for cfg, omode in job["units"]:
         lang, opts = CFGS[cfg]
         out = sdir / "out" / ("%s-%s" % (cfg, omode))
@@ -831,8 +867,13 @@ def _process_set(job):
                         p = subprocess.run(argv + ["-fsyntax-only", "-I", str(out), str(tu)], stdout=subprocess.PIPE, stderr=subprocess.STDOUT,
                                            text=True, errors="replace", timeout=600)
                         d0, more = diagnostics(p.stdout, strip)
+                        cause = ""
+                        if p.returncode != 0 and d0 and not tid.endswith("-use"):
+                            if ids is None:
+                                ids = dsdl_identifiers(sset)
+                            cause = macro_cause(argv, out, tu, sdir, d0, ids)
                         ev.append({"ev": "compile", "file": cps(rel), "tool": tid, "std": tid.split("-", 1)[1], "rc": p.returncode,
-                                   "diag": cps(d0), "more": [cps(x) for x in more]})
+                                   "diag": cps(d0), "more": [cps(x) for x in more], "cause": cause})
         res["units"].append({"cfg": cfg, "omit": omode, "events": ev})
     if not job.get("keep"):
         shutil.rmtree(sdir, ignore_errors=True)
@@ -977,8 +1018,11 @@ class Campaign:
                 seen_file.add((sid, cfg, omode, f))
                 diags = [to_s(e["diag"])] + [to_s(d) for d in e.get("more", [])]
                 classes = set()
-                for diag in diags:
+                for k, diag in enumerate(diags):
                     dc = diag_class(diag) or "rc=%d" % e["rc"]
+                    if k == 0 and e.get("cause"):
+                        dc = "a DSDL name that is a standard-library macro at that point is emitted unstropped"
+                        diag = "%s  [the diagnosed line contains the DSDL identifier '%s', a macro here]" % (diag, e["cause"])
                     if dc in classes:
                         continue
                     classes.add(dc)
@@ -1004,15 +1048,20 @@ class Campaign:
                     return [dict(x) for x in evs]
         return None
 
-    def report(self):
-        """a failure that shows with support enabled AND omitted is one finding ("any"), otherwise the mode is part of the signature"""
+    def report(self, only=None):
+        """a failure that shows with support enabled AND omitted is one finding ("any"), otherwise the mode is part of the signature.
+        only: the case of a replay (one unit is re-run: the recorded clause / file / mode label are kept)"""
         self.judge()
         modes = {}
         for clause, target, omode, dc, what, case in self.found:
             modes.setdefault((clause, target, dc), set()).add(omode)
         for clause, target, omode, dc, what, case in self.found:
             m = "any" if len(modes[(clause, target, dc)]) > 1 else omode
-            self.ctx.violation("C06|%s|%s|%s|%s" % (clause, target, m, dc), what, case)
+            if only is not None:
+                if clause != only.get("clause") or case.get("file") != only.get("file"):
+                    continue
+                m = only.get("sigmode", m)
+            self.ctx.violation("C06|%s|%s|%s|%s" % (clause, target, m, dc), what, dict(case, sigmode=m))
 
 
 design_supgen = {}  # target -> observed SupportGen (set by run())
@@ -1145,7 +1194,7 @@ def emit_worlds(ctx, design):
 
 def emit_names(ctx):
     cfgname = ctx.pick("IncludesNames", "IncludesNames_t")
-    cases = tlc.emit_cases(ctx, "IncludesNames", cfgname, name="IncludesNames.tla / %s.cfg" % cfgname, constants="MaxWords=%d" % ctx.pick(3, 4), timeout=1200)
+    cases = tlc.emit_cases(ctx, "IncludesNames", cfgname, name="IncludesNames.tla / %s.cfg" % cfgname, constants="MaxWords=%d" % ctx.pick(3, 28), timeout=1200)
     if len(cases) < 200:
         raise MachineryFailure("too few name cases emitted: %d" % len(cases))
     return cases
@@ -1188,15 +1237,23 @@ def select_name_cases(ctx, cases):
     return [sel[k] for k in sorted(sel)]
 
 
-def word_for(case):
+def word_for(case, rotate):
+    """rotate > 0 (quick tier, few word indices): different positions see different words of a class; rotate = 0: word w of the class"""
     lst = WORDS[case["cls"]]
-    # rotate through the class by position so that different positions see different words of a class
     off = {"ns": 0, "nested_ns": 1, "type": 2, "field": 3, "const": 4}[case["pos"]]
     n = len(lst)
-    idx = (case["w"] - 1) + off * 3
     if case["w"] > n:
         return None
-    return lst[idx % n]
+    return lst[((case["w"] - 1) + off * rotate) % n]
+
+
+def cfgs_for(ctx, case):
+    """thorough tier, words beyond the first of a class: the targets for which the class of the name is special"""
+    if ctx.quick or case["w"] <= 1 or case["cls"] in ("plain", "case"):
+        return ALL_CFGS
+    if case["cls"] in ("py_kw", "py_builtin"):
+        return ["py"]
+    return ["c", "cpp14", "cpp17", "cpp17pmr", "cpp20"]
 
 
 def mkjob(ctx, sset, units, tools, compile_=True, keep=False, light=None):
@@ -1255,7 +1312,7 @@ def run(ctx):
         sset = world_set(w, i)
         cfgs = ALL_CFGS if n % ctx.pick(13, 5) == 0 else ["c", "cpp17", "py"]
         modes = omodes
-        do_compile = n % ctx.pick(8, 8) == 0
+        do_compile = n % ctx.pick(8, 16) == 0
         wsets.append((sset, cfgs, modes))
         wjobs.append(mkjob(ctx, sset, [(c, m) for c in cfgs for m in modes], tools, compile_=do_compile))
     for (sset, cfgs, modes), r in zip(wsets, run_jobs(ctx, wjobs)):
@@ -1283,7 +1340,7 @@ def run(ctx):
     njobs, nsets = [], []
     seen = set()
     for n, c in enumerate(sel):
-        w = word_for(c)
+        w = word_for(c, ctx.pick(3, 0))
         if w is None:
             continue
         sset = name_case_set(c, w)
@@ -1291,7 +1348,7 @@ def run(ctx):
             continue
         seen.add(sset["id"])
         nsets.append(sset)
-        njobs.append(mkjob(ctx, sset, [(cfg, m) for cfg in ALL_CFGS for m in omodes], tools,
+        njobs.append(mkjob(ctx, sset, [(cfg, m) for cfg in cfgs_for(ctx, c) for m in omodes], tools if c["w"] <= 1 else tool_matrix(full=False),
                            light=("uroot/", ("c", "cpp14", "cpp17pmr") if ctx.quick else None)))
     # two distinct DSDL names that the C / C++ stropping folds onto one identifier: excluded by the property (Includes!Folded) for those
     # targets, judged as usual for Python (if_ and _if stay distinct)
@@ -1311,7 +1368,7 @@ def run(ctx):
     camp.judge()
 
     # ---- 4. code -> spec: larger random sets and the trees shipped in the repository
-    rsets = [random_set(ctx.rng, i) for i in range(ctx.pick(8, 50))]
+    rsets = [random_set(ctx.rng, i) for i in range(ctx.pick(8, 30))]
     usets = repo_sets()
     rjobs = [mkjob(ctx, s, [(cfg, m) for cfg in ALL_CFGS for m in omodes], tools) for s in rsets]
     rjobs += [mkjob(ctx, s, [(cfg, m) for cfg in (ALL_CFGS if not ctx.quick else ["c", "cpp14", "cpp17pmr", "py"]) for m in omodes], tools) for s in usets]
@@ -1467,4 +1524,4 @@ def replay(ctx, case):
     if not r["accepted"]:
         print("replay: the front end does not accept this input any more (%s)" % r["why"])
         return
-    camp.report()
+    camp.report(only=case)
